@@ -44,6 +44,10 @@ CASE_TIMEOUT = {"quick": 30, "thorough": 60}
 SIZES = {"quick": 1200, "thorough": 24000}
 
 
+class _Interrupted(BaseException):
+    """Stands for Ctrl-C / a watchdog alarm inside a class's own is_empty()."""
+
+
 def shard_setup(tier):
     m_classdb.install()
 
@@ -102,8 +106,11 @@ def gen_cases(tier, seed):
                 ops.append(["in_cls", j])
             elif r < 0.80:
                 ops.append(["in_int", rng.choice(("known", "len", "len5", "neg1", "negbig", "zero"))])
-            elif r < 0.88:
+            elif r < 0.86:
                 ops.append(["empty", j, rng.random() < 0.5])
+            elif r < 0.88:
+                # the class's own emptiness check is interrupted (Ctrl-C, a watchdog), asked again later
+                ops.append(["empty_interrupted", j, rng.random() < 0.5])
             elif r < 0.93:
                 ops.append(["set_empty", j])
             elif r < 0.96:
@@ -195,6 +202,33 @@ def run_case(case):
                     db.is_empty(c)
             else:
                 cx.count("c15.is_empty_unknown_class_not_judged")
+        elif kind == "empty_interrupted":
+            c = build(op[1])
+            if c in model.index:
+                cx.count("c15.emptiness_checks_interrupted")
+                state = {"armed": True}
+                own = c.is_empty
+
+                def interrupted_once(_own=own, _state=state):
+                    if _state["armed"]:
+                        _state["armed"] = False
+                        raise _Interrupted()
+                    return _own()
+
+                c.is_empty = interrupted_once
+                try:
+                    got = db.is_empty(c, model.index[c]) if op[2] else db.is_empty(c)
+                except _Interrupted:
+                    cx.count("c15.interruptions_propagated")
+                else:
+                    # nothing was interrupted only if the database already knew (and never asked)
+                    # (an answer although the check was interrupted is not judged by itself - the
+                    # statement is about what the database answers from then on, see below)
+                    if not state["armed"]:
+                        cx.count("c15.interruptions_answered_instead_of_propagated")
+                del c.is_empty
+                fresh = build(op[1])
+                db.is_empty(fresh)  # judged by the postcondition: equals the class's own answer
         elif kind == "set_empty":
             c = build(op[1])
             if c in model.index:
